@@ -19,9 +19,10 @@ BadSources == {"bytes", "int", "list", "StringIO", "float", "tuple",
                \* things that only LOOK like a path: an os.PathLike that is no pathlib.Path, a file name as bytes
                "pathlike", "bytearray", "bytes_path", "purepath"}     \* falsy ones too
 
-\* opts = [allow |-> BOOLEAN, custom |-> BOOLEAN]  (custom renderer classes passed or not)
+\* opts = [allow |-> BOOLEAN, custom |-> "none" | "sql" | "dbml" | "both"]  (which custom renderer classes are passed: each
+\* option is forwarded on its own)
 EffectiveAllow(route, opts) == AcceptsOptions(route) /\ opts.allow
-ExpectedRenderers(route, opts) == IF AcceptsOptions(route) /\ opts.custom THEN "custom" ELSE "default"
+ExpectedRenderers(route, opts) == IF AcceptsOptions(route) THEN opts.custom ELSE "none"
 
 ParseCall(route, bom, doc, opts) ==
   IF route \in BadSources THEN Err("TypeError")
